@@ -6,7 +6,9 @@
 (* random integer weights and inputs) is accepted iff                      *)
 (*   - every builder call has the outcome and the announced shapes the     *)
 (*     contract prescribes (AcceptsInput / NewLayer / MarkFlatten),        *)
-(*   - every Connect / Loopback call has the contract's outcome,           *)
+(*   - every Connect / Loopback call -- valid or not (indices out of range, *)
+(*     reversed, shapes that do not fit, duplicates, loops over blocks) --  *)
+(*     has the contract's outcome, and a refused call changes nothing,      *)
 (*   - every logged forward pass equals Forward of Network.tla on the      *)
 (*     network built so far (every layer's output, exactly),               *)
 (*   - every logged backward pass equals Backward (when the point is free  *)
@@ -53,16 +55,31 @@ TraceAddBlock ==
                /\ net' = [net EXCEPT !.layers = Append(net.layers, B)]
        ELSE r.outcome = "panic" /\ net' = net
 
+\* connect(from, to) -- the whole contract: accepted iff both layers exist, from <= to, the inputs of the two layers hold
+\* the same number of elements, and `to` is not yet the target of a connection; a refused call changes nothing.
+ConnectValid(a, b) ==
+  /\ a \in 1..Len(net.layers) /\ b \in 1..Len(net.layers) /\ a <= b
+  /\ Count(net.layers[a].in) = Count(net.layers[b].in)
+  /\ ~ \E p \in net.connect : p[1] = b
 TraceConnect ==
   /\ IsEvent("Connect")
-  /\ IF \E p \in net.connect : p[1] = r.to
-       THEN r.outcome = "panic" /\ net' = net
-       ELSE r.outcome = "ok" /\ net' = [net EXCEPT !.connect = @ \cup {<<r.to, r.from>>}]
+  /\ IF ConnectValid(r.from, r.to)
+       THEN r.outcome = "ok" /\ net' = [net EXCEPT !.connect = @ \cup {<<r.to, r.from>>}]
+       ELSE r.outcome = "panic" /\ net' = net
 
+\* loopback(outof, into, k, inskips): accepted iff both layers exist, into <= outof, what `outof` produces has the SHAPE
+\* `into` consumes, no loop leaves `outof` yet and no feedback block lies in the range; a refused call changes nothing.
+LoopValid(a, b) ==
+  /\ a \in 1..Len(net.layers) /\ b \in 1..Len(net.layers) /\ a <= b
+  /\ net.layers[a].in = net.layers[b].out
+  /\ ~ \E lp \in net.loops : lp.outof = b
+  /\ \A i \in a..b : net.layers[i].kind # "fb"
 TraceLoopback ==
-  /\ IsEvent("Loopback") /\ r.outcome = "ok"
-  /\ net.layers[r.into].in = net.layers[r.outof].out
-  /\ net' = [net EXCEPT !.loops = @ \cup {[outof |-> r.outof, into |-> r.into, iterations |-> r.iterations, inskips |-> r.inskips]}]
+  /\ IsEvent("Loopback")
+  /\ IF LoopValid(r.into, r.outof)
+       THEN /\ r.outcome = "ok"
+            /\ net' = [net EXCEPT !.loops = @ \cup {[outof |-> r.outof, into |-> r.into, iterations |-> r.iterations, inskips |-> r.inskips]}]
+       ELSE r.outcome = "panic" /\ net' = net
 
 \* set_activation(layer, act): replaces the activation of a dense / convolution / deconvolution layer; refused for
 \* max-pool layers, feedback blocks and indices out of range
